@@ -150,7 +150,8 @@ theorem ginv_poll {st : Views.St} {G : List GSt} {A : List View} (h : GInv st G 
     (hq : quiet = true → allow = false) :
     ∃ G' Ac', applyEvs quiet sr (A.getD c []) evs = .ok Ac' ∧ GInv st' G' (A.set c Ac') ∧
       (allow = true → ∀ cn m, st.conns[c]? = some cn → cn.sel = some m →
-        ∃ g', G'[m]? = some g' ∧ ViewRel Ac' g'.mbox) := by
+        ∃ g' gs', G'[m]? = some g' ∧ gs' ∈ g'.sess ∧ gs'.id = c ∧ gs'.view = g'.mbox ∧ gs'.pending = [] ∧
+          ViewRel Ac' g'.mbox) := by
   rcases pollConn_some hp with ⟨rfl, rfl, hnone⟩ | ⟨cn, m, b, t, out, hc, hsel, hb, hstep, rfl, rfl⟩
   · refine ⟨G, A.getD c [], rfl, by rw [set_getD_self]; exact h, ?_⟩
     intro _ cn m hc hsel
@@ -190,8 +191,14 @@ theorem ginv_poll {st : Views.St} {G : List GSt} {A : List View} (h : GInv st G 
       rw [hsel] at hsel2
       cases hsel2
       have hmlt : m < G.length := (List.getElem?_eq_some_iff.mp hg).1
-      refine ⟨_, by rw [List.getElem?_set_self hmlt], ?_⟩
-      rw [(hall ha).1] at hv'
-      exact hv'
+      refine ⟨{ g with sess := g.sess.map fun x => if x.id = c then
+          { x with view := v1, pending := gs.pending.drop (dueOf gs.pending allow).length } else x },
+        { gs with view := v1, pending := gs.pending.drop (dueOf gs.pending allow).length },
+        by rw [List.getElem?_set_self hmlt], ?_, hid, (hall ha).1, (hall ha).2, ?_⟩
+      · have := List.mem_map_of_mem (f := fun x : GSess => if x.id = c then
+          ({ x with view := v1, pending := gs.pending.drop (dueOf gs.pending allow).length } : GSess) else x) hgs
+        simpa [hid] using this
+      · rw [(hall ha).1] at hv'
+        exact hv'
 
 end GoImap.ViewsLemmas
